@@ -10,17 +10,20 @@ use std::io::Write;
 
 // ---- a generic value whose Serialize impl issues a chosen serde call sequence ----
 #[derive(Clone, Debug)]
-pub enum K { S(String), I(i64), U(u64), B(bool), C(char) }
+pub enum K { S(String), I(i64), U(u64), B(bool), C(char), D(Vec<String>) }
+/// a Display value written in fragments (some of them empty): what Serializer::collect_str receives
+pub struct Frags<'a>(pub &'a [String]);
+impl std::fmt::Display for Frags<'_> { fn fmt(&self, f: &mut std::fmt::Formatter<'_>) -> std::fmt::Result { for s in self.0 { f.write_str(s)?; } Ok(()) } }
 #[derive(Clone, Debug)]
 pub enum T {
     Null, Unit, Bool(bool), I(i64), U(u64), I8(i8), U16(u16), I128(i128), U128(u128), F(f64), Str(String), Char(char),
     Seq(Vec<T>, bool), Tuple(Vec<T>), Map(Vec<(K, T)>, bool), Struct(Vec<(&'static str, T)>),
     None, Some(Box<T>), UnitVariant(&'static str), NewtypeVariant(&'static str, Box<T>), TupleVariant(&'static str, Vec<T>),
-    StructVariant(&'static str, Vec<(&'static str, T)>), Newtype(Box<T>),
+    StructVariant(&'static str, Vec<(&'static str, T)>), Newtype(Box<T>), Disp(Vec<String>),
 }
 impl Serialize for K {
     fn serialize<S: Serializer>(&self, s: S) -> Result<S::Ok, S::Error> {
-        match self { K::S(x) => s.serialize_str(x), K::I(x) => s.serialize_i64(*x), K::U(x) => s.serialize_u64(*x), K::B(x) => s.serialize_bool(*x), K::C(x) => s.serialize_char(*x) }
+        match self { K::S(x) => s.serialize_str(x), K::I(x) => s.serialize_i64(*x), K::U(x) => s.serialize_u64(*x), K::B(x) => s.serialize_bool(*x), K::C(x) => s.serialize_char(*x), K::D(v) => s.collect_str(&Frags(v)) }
     }
 }
 impl Serialize for T {
@@ -40,6 +43,7 @@ impl Serialize for T {
             T::TupleVariant(n, v) => { let mut q = s.serialize_tuple_variant("E", 0, n, v.len())?; for x in v { q.serialize_field(x)?; } q.end() }
             T::StructVariant(n, v) => { let mut q = s.serialize_struct_variant("E", 0, n, v.len())?; for (k, x) in v { q.serialize_field(k, x)?; } q.end() }
             T::Newtype(x) => s.serialize_newtype_struct("N", &**x),
+            T::Disp(v) => s.collect_str(&Frags(v)),
         }
     }
 }
@@ -55,9 +59,10 @@ pub fn model(t: &T) -> J {
         T::F(x) => if x.is_finite() { f64_j(*x) } else { json!({"t":"null"}) },
         T::Str(s) => str_model(s), T::Char(c) => str_model(&c.to_string()),
         T::Seq(v, _) | T::Tuple(v) => json!({"t":"arr","e": v.iter().map(model).collect::<Vec<_>>()}),
-        T::Map(v, _) => obj_model(v.iter().map(|(k, x)| (match k { K::S(s) => s.clone(), K::I(i) => i.to_string(), K::U(u) => u.to_string(), K::B(b) => b.to_string(), K::C(c) => c.to_string() }, model(x))).collect()),
+        T::Map(v, _) => obj_model(v.iter().map(|(k, x)| (match k { K::S(s) => s.clone(), K::I(i) => i.to_string(), K::U(u) => u.to_string(), K::B(b) => b.to_string(), K::C(c) => c.to_string(), K::D(v) => v.concat() }, model(x))).collect()),
         T::Struct(v) => obj_model(v.iter().map(|(k, x)| (k.to_string(), model(x))).collect()),
         T::Some(x) | T::Newtype(x) => model(x),
+        T::Disp(v) => str_model(&v.concat()),
         T::UnitVariant(n) => str_model(n),
         T::NewtypeVariant(n, x) => obj_model(vec![(n.to_string(), model(x))]),
         T::TupleVariant(n, v) => obj_model(vec![(n.to_string(), json!({"t":"arr","e": v.iter().map(model).collect::<Vec<_>>()}))]),
@@ -77,11 +82,15 @@ pub fn gen_string(rng: &mut Rng) -> String {
     }
     s
 }
+fn gen_frags(rng: &mut Rng) -> Vec<String> {
+    (0..rng.below(5)).map(|_| match rng.below(4) { 0 => String::new(), 1 => rng.pick(SPECIAL).to_string(), 2 => gen_string(rng).chars().take(40).collect(), _ => "::".to_string() }).collect()
+}
 pub fn gen_tree(rng: &mut Rng, depth: usize) -> T {
     let names: &[&'static str] = &["a", "b", "k\"q", "", "long_field_name_0123456789", "é"];
     let leaf = depth >= 3 || rng.chance(1, 3);
     if leaf {
-        return match rng.below(14) {
+        return match rng.below(15) {
+            14 => T::Disp(gen_frags(rng)),
             0 => T::Null, 1 => T::Bool(rng.chance(1, 2)), 2 => T::I(rng.next() as i64 >> rng.below(64)), 3 => T::U(rng.next() >> rng.below(64)),
             4 => T::F(match rng.below(5) { 0 => f64::NAN, 1 => f64::INFINITY, 2 => -0.0, 3 => f64::from_bits(rng.next()), _ => (rng.below(2000) as f64 - 1000.0) / 8.0 }),
             5 | 6 | 7 => T::Str(gen_string(rng)), 8 => T::Char(*rng.pick(&['a', '"', '\\', '\n', '\u{1}', 'é', '😀'])), 9 => T::Unit, 10 => T::None,
@@ -92,7 +101,7 @@ pub fn gen_tree(rng: &mut Rng, depth: usize) -> T {
     match rng.below(11) {
         0 | 1 => T::Seq((0..n).map(|_| gen_tree(rng, depth + 1)).collect(), rng.chance(1, 2)),
         2 => T::Tuple((0..n).map(|_| gen_tree(rng, depth + 1)).collect()),
-        3 | 4 => T::Map((0..n).map(|i| (match rng.below(6) { 0 => K::I(rng.next() as i64 >> rng.below(64)), 1 => K::U(rng.next() >> rng.below(64)), 2 => K::B(rng.chance(1, 2)), 3 => K::C(*rng.pick(&['x', '"', '\n'])), _ => K::S(if rng.chance(1, 3) { gen_string(rng) } else { format!("k{i}") }) }, gen_tree(rng, depth + 1))).collect(), rng.chance(1, 2)),
+        3 | 4 => T::Map((0..n).map(|i| (match rng.below(7) { 6 => K::D(gen_frags(rng)), 0 => K::I(rng.next() as i64 >> rng.below(64)), 1 => K::U(rng.next() >> rng.below(64)), 2 => K::B(rng.chance(1, 2)), 3 => K::C(*rng.pick(&['x', '"', '\n'])), _ => K::S(if rng.chance(1, 3) { gen_string(rng) } else { format!("k{i}") }) }, gen_tree(rng, depth + 1))).collect(), rng.chance(1, 2)),
         5 => T::Struct((0..n).map(|i| (names[i % names.len()], gen_tree(rng, depth + 1))).collect()),
         6 => T::Some(Box::new(gen_tree(rng, depth + 1))),
         7 => if rng.chance(1, 2) { T::UnitVariant(*rng.pick(names)) } else { T::NewtypeVariant(*rng.pick(names), Box::new(gen_tree(rng, depth + 1))) },
